@@ -179,6 +179,11 @@ func DecodeString(inp []byte, startIndex int) (str []byte, bytesRead int, err er
 		return []byte{inp[dataStartIndex]}, 1, nil
 	}
 
+	// NOTE: compare against the remaining length, the sum may overflow for huge sizes
+	if dataSize > len(inp)-dataStartIndex {
+		return nil, 0, ErrIncompleteInput
+	}
+
 	// if for data we have to read only a single extra byte and that byte
 	// is in the range of characters, we are using two bytes instead of 1 byte
 	if dataSize == 1 && inp[dataStartIndex] <= ByteRangeEnd {
@@ -186,10 +191,6 @@ func DecodeString(inp []byte, startIndex int) (str []byte, bytesRead int, err er
 	}
 
 	// collect and return string
-	// NOTE: compare against the remaining length, the sum may overflow for huge sizes
-	if dataSize > len(inp)-dataStartIndex {
-		return nil, 0, ErrIncompleteInput
-	}
 	dataEndIndex := dataStartIndex + dataSize
 
 	return inp[dataStartIndex:dataEndIndex], dataEndIndex - startIndex, nil
@@ -225,13 +226,22 @@ func DecodeList(inp []byte, startIndex int) (encodedItems [][]byte, bytesRead in
 	itemStartIndex = dataStartIndex
 
 	for dataBytesRead < listDataSize {
-		_, itemDataStartIndex, itemSize, err := ReadSize(inp, itemStartIndex)
+		isStringItem, itemDataStartIndex, itemSize, err := ReadSize(inp, itemStartIndex)
 		if err != nil {
 			return nil, 0, err
 		}
 		// collect encoded item
 		if itemSize > len(inp)-itemDataStartIndex {
 			return nil, 0, ErrIncompleteInput
+		}
+		// a single byte in the range of characters must be encoded as itself,
+		// not as a short string with a length prefix
+		if isStringItem &&
+			itemSize == 1 &&
+			itemDataStartIndex != itemStartIndex &&
+			inp[itemDataStartIndex] <= ByteRangeEnd {
+
+			return nil, 0, ErrNonCanonicalInput
 		}
 		itemEndIndex = itemDataStartIndex + itemSize
 		retList = append(retList, inp[itemStartIndex:itemEndIndex])
